@@ -103,7 +103,7 @@ func Lex(text string) (toks []Token, st LexStatus, why string) {
 			}
 			v, _ := new(big.Int).SetString(lex, 10)
 			if v.Cmp(maxInt64) > 0 || v.Cmp(minInt64) < 0 {
-				outOfDomain = "integer beyond int64"
+				outOfDomain = WhyBigInt
 			}
 			toks = append(toks, Token{Kind: TNumber, Text: lex, Num: v, Pos: i})
 			i = j
@@ -314,3 +314,7 @@ func Kinds(toks []Token) []Kind {
 	}
 	return ks
 }
+
+// WhyBigInt: the out-of-domain reason for an integer beyond int64. An implementation may refuse
+// such a text; the meaning it has if accepted is fixed all the same (see satInt64).
+const WhyBigInt = "integer beyond int64"
